@@ -9,6 +9,7 @@ import (
 	"runtime"
 	"strings"
 	"sync"
+	"sync/atomic"
 	"time"
 
 	"github.com/IrineSistiana/mosproxy/verifsim/plan"
@@ -70,6 +71,9 @@ func installKnobs(s *sim.Sim, k plan.Knobs) {
 	vbytes.GetFill = k.GetFill
 	vbytes.Quarantine = k.Quarantine
 	vbytes.Report = func(clause, detail string) { s.Fail("C20", clause, "%s", detail) }
+	vsync.PoolPoison = k.PoolPoison
+	vsync.PoolQuarantine = k.PoolQuarantine
+	vsync.PoolReport = func(clause, detail string) { s.Fail("C20", "pooled-object-"+clause, "%s", detail) }
 	if k.UDPMaxBatch > 0 {
 		vipv6.MaxBatch = k.UDPMaxBatch
 	}
@@ -102,6 +106,9 @@ func installKnobs(s *sim.Sim, k plan.Knobs) {
 	}
 	if k.YieldDensity > 0 {
 		vsync.Hook = func(pc uintptr) {
+			if yieldPaused.Load() {
+				return
+			}
 			st := site(pc)
 			if k.YieldMask != 0 && (k.YieldMask>>(sim.HashStr(st)&63))&1 == 0 {
 				return
@@ -133,11 +140,17 @@ func installKnobs(s *sim.Sim, k plan.Knobs) {
 	}
 }
 
+// yieldPaused switches the lock-site yields off for a stretch of a run (the
+// sequential part of the id-exhaustion scenario).
+var yieldPaused atomic.Bool
+
 func uninstallKnobs() {
 	vsync.Hook = nil
 	vsync.Pick = nil
 	vbytes.Drain()
 	vbytes.Report = nil
+	vsync.PoolPoison = false
+	vsync.PoolReport = nil
 }
 
 func us(v int64) time.Duration { return time.Duration(v) * time.Microsecond }
